@@ -51,7 +51,7 @@ live GET) and the pod cache holds no unrecorded task of the Job -/
 theorem finalizerTasks_nil_iff (s : Sys) (jo : JobObj) (rj : Job) :
     finalizerTasks s jo rj = [] ↔
       tasksForRefsConfirmed s jo rj.status.tasks = [] ∧
-      ∀ p ∈ s.podCache, UnrecordedTaskPod jo rj p → podTask p = none := by
+      ∀ p ∈ s.podCache, UnrecordedTaskPod jo rj p → podTask s.clock p = none := by
   constructor
   · intro h
     have hall : ∀ t, ¬ t ∈ finalizerTasks s jo rj := by rw [h]; simp
@@ -62,7 +62,7 @@ theorem finalizerTasks_nil_iff (s : Sys) (jo : JobObj) (rj : Job) :
         exact absurd ((Furiko.JobCtlPlan.mem_finalizerTasks s jo rj t).mpr (Or.inl (by rw [hx]; simp))) (hall t)
     refine ⟨hc, ?_⟩
     intro p hp ⟨h1, h2, h3⟩
-    cases ht : podTask p with
+    cases ht : podTask s.clock p with
     | none => rfl
     | some t =>
       exact absurd ((Furiko.JobCtlPlan.mem_finalizerTasks s jo rj t).mpr
@@ -83,7 +83,7 @@ with and controlled by the Job that the status does not list. -/
 theorem finalizer_removed_only_when_gone (s : Sys) (jo : JobObj) (rj : Job) (s' : Sys) (rj' : Job)
     (h : handleFinalizer s jo rj true = (s', some (rj', false))) :
     rj.deletionTimestamp.isSome = true ∧ tasksForRefsConfirmed s jo rj.status.tasks = [] ∧
-    (∀ p ∈ s.podCache, UnrecordedTaskPod jo rj p → podTask p = none) ∧
+    (∀ p ∈ s.podCache, UnrecordedTaskPod jo rj p → podTask s.clock p = none) ∧
     finalizerTasks s jo rj = [] := by
   unfold handleFinalizer at h
   by_cases hdel : rj.deletionTimestamp.isNone = true
@@ -121,8 +121,8 @@ listed in the status exists on the server any more, and no unrecorded task of th
 recording failed) is visible in the pod cache. -/
 theorem job_gone_implies_tasks_gone (s : Sys) (jo : JobObj) (rj : Job) (s' : Sys) (rj' : Job)
     (h : handleFinalizer s jo rj true = (s', some (rj', false))) :
-    (∀ r ∈ rj.status.tasks, ∀ p, findPod s.pods r.name = some p → p.ownerUid = some jo.uid → podTask p = none) ∧
-    (∀ p ∈ s.podCache, UnrecordedTaskPod jo rj p → podTask p = none) := by
+    (∀ r ∈ rj.status.tasks, ∀ p, findPod s.pods r.name = some p → p.ownerUid = some jo.uid → podTask s.clock p = none) ∧
+    (∀ p ∈ s.podCache, UnrecordedTaskPod jo rj p → podTask s.clock p = none) := by
   refine ⟨?_, (finalizer_removed_only_when_gone s jo rj s' rj' h).2.2.1⟩
   intro r hr p hp hown
   have := confirmed_empty_means_gone s jo _ (finalizer_removed_only_when_gone s jo rj s' rj' h).2.1 r hr
@@ -139,7 +139,7 @@ theorem foreign_pod_does_not_block_finalizer (s : Sys) (jo : JobObj) (rj : Job)
     (hdel : rj.deletionTimestamp.isSome = true)
     (hcache : ∀ r ∈ rj.status.tasks, ∀ p, findPod s.podCache r.name = some p → p.ownerUid ≠ some jo.uid)
     (hsrv : ∀ r ∈ rj.status.tasks, ∀ p, findPod s.pods r.name = some p → p.ownerUid ≠ some jo.uid)
-    (hun : ∀ p ∈ s.podCache, UnrecordedTaskPod jo rj p → podTask p = none) :
+    (hun : ∀ p ∈ s.podCache, UnrecordedTaskPod jo rj p → podTask s.clock p = none) :
     (handleFinalizer s jo rj true).2.map (·.2) = some false ∧ (handleFinalizer s jo rj true).1.calls = s.calls := by
   have hlive : ∀ r ∈ rj.status.tasks, liveGetTask s jo r.name = none := by
     intro r hr
@@ -188,7 +188,7 @@ theorem foreign_pod_does_not_block_finalizer (s : Sys) (jo : JobObj) (rj : Job)
 /-- conversely, an unrecorded task of the Job that the pod cache holds keeps the finalizer: the
 step does not return "finalizer dropped" -/
 theorem unrecorded_task_keeps_finalizer (s : Sys) (jo : JobObj) (rj : Job) (p : PodObj) (t : Task)
-    (hp : p ∈ s.podCache) (hu : UnrecordedTaskPod jo rj p) (ht : podTask p = some t) :
+    (hp : p ∈ s.podCache) (hu : UnrecordedTaskPod jo rj p) (ht : podTask s.clock p = some t) :
     ∀ s' rj', handleFinalizer s jo rj true ≠ (s', some (rj', false)) := by
   intro s' rj' h
   have := (finalizer_removed_only_when_gone s jo rj s' rj' h).2.2.1 p hp hu
@@ -199,7 +199,7 @@ that name controlled by the Job) is always found (live GET), so the finalizer st
 theorem existing_unfinished_task_found (s : Sys) (jo : JobObj) (ref : TaskRef) (p : PodObj) (t : Task)
     (hfin : ref.finishTimestamp = none) (hp : findPod s.pods ref.name = some p)
     (hown : p.ownerUid = some jo.uid)
-    (hc : findPod s.podCache ref.name = none) (ht : podTask p = some t) :
+    (hc : findPod s.podCache ref.name = none) (ht : podTask s.clock p = some t) :
     getTaskForRef s jo ref = some t := by
   unfold getTaskForRef liveGetTask isControlledByJob
   simp [hc, hfin, hp, ht, hown]
@@ -213,7 +213,7 @@ example :
     let rj : Job := { template := some {}, deletionTimestamp := some 90000000000, status := { startTime := some 1000000000 } }
     let jo : JobObj := ⟨"job", "u", rj, true, 1⟩
     let s : Sys := { clock := 100000000000, d := { hash := "d" }, pods := [p], podCache := [p] }
-    UnrecordedTaskPod jo rj p ∧ (podTask p).isSome = true ∧
+    UnrecordedTaskPod jo rj p ∧ (podTask s.clock p).isSome = true ∧
     (handleFinalizer s jo rj true).2.map (·.2) = some true ∧
     (handleFinalizer s jo rj true).1.calls.map (fun c => (c.verb, c.res, c.name, c.out)) = [("delete", "pods", "job-d-0", "ok")] ∧
     (handleFinalizer { s with pods := [], podCache := [] } jo rj true).2.map (·.2) = some false := by
@@ -233,7 +233,7 @@ example :
                       status := { startTime := some 1000000000, tasks := [ref], createdTasks := 1 } }
     let jo : JobObj := ⟨"job", "u", rj, true, 1⟩
     let s : Sys := { clock := 100000000000, d := { hash := "d" }, pods := [f], podCache := [f] }
-    (podTask f).isSome = true ∧
+    (podTask s.clock f).isSome = true ∧
     (handleFinalizer s jo rj true).2.map (·.2) = some false ∧ (handleFinalizer s jo rj true).1.calls = [] ∧
     (handleFinalizer { s with pods := [own], podCache := [own] } jo rj true).2.map (·.2) = some true ∧
     (handleFinalizer { s with pods := [own], podCache := [own] } jo rj true).1.calls.map
